@@ -418,7 +418,12 @@ C09BigInts == { [st |-> Select(<<F(ACall("substr", <<AKey, AInt(0), AInt(1)>>), 
                   f \in { F(Call1("sum", Call1("int", AVal)), "s"), F(Call1("avg", Call1("int", AVal)), "a"), F(Call1("sum", AVal), "sv"), F(Call1("avg", AVal), "av"), F(Call1("count", AInt(1)), "c") } }
               \cup { [st |-> Select(<<f>>, ABin("^=", AKey, AStr(pre)), <<>>, <<>>, NoLim), sid |-> "BA"] :
                   f \in { F(Call1("sum", Call1("int", AVal)), "s"), F(Call1("avg", Call1("int", AVal)), "a") }, pre \in { <<97>>, <<98>>, <<99>> } }
-C09Cases == C09BigInts \cup C09Quantile \cup C09MixedText \cup C09Grouped \cup C09All \cup C09Refs \cup C09Empty \cup C09Raw
+\* arithmetic around aggregates that fails for one group (a one-pair group: count(1) - 1 = 0), before and after fields that do not
+C09Err == { [st |-> Select(fs, All, <<>>, <<1>>, NoLim), sid |-> "G"] :
+              fs \in { <<F(ACall("substr", <<AKey, AInt(0), AInt(1)>>), "p"), F(ABin("/", Call1("sum", Call1("strlen", AKey)), ABin("-", Call1("count", AInt(1)), AInt(1))), "q"), F(Call1("count", AInt(1)), "c")>>,
+                       <<F(ACall("substr", <<AKey, AInt(0), AInt(1)>>), "p"), F(Call1("count", AInt(1)), "c"), F(ABin("/", AInt(6), ABin("-", Call1("count", AInt(1)), AInt(1))), "q")>>,
+                       <<F(ACall("substr", <<AKey, AInt(0), AInt(1)>>), "p"), F(ABin("/", Call1("max", Call1("strlen", AVal)), ABin("-", Call1("min", Call1("strlen", AVal)), Call1("max", Call1("strlen", AVal)))), "q"), F(Call1("count", AInt(1)), "c"), F(Call1("min", Call1("strlen", AKey)), "m")>> } }
+C09Cases == C09Err \cup C09BigInts \cup C09Quantile \cup C09MixedText \cup C09Grouped \cup C09All \cup C09Refs \cup C09Empty \cup C09Raw
 
 -----------------------------------------------------------------------------
 (* c05: aliases and the field cache.  Stores in which the first, middle and last scanned rows fail the filter. *)
